@@ -28,7 +28,9 @@ ASSUMPTIONS = [
 
 OPS = ["str", "pairs", "sequence", "dot_bracket", "fcfs", "all_dot_brackets", "elements", "convert_sim",
        "convert_none", "without_pseudoknots", "without_isolated", "eq_fresh", "paired",
-       "db_without_pseudoknots", "from_dotbracket", "fcfs_without_pseudoknots"]
+       "db_without_pseudoknots", "from_dotbracket", "fcfs_without_pseudoknots", "from_fcfs", "from_listed",
+       "from_string"]
+REBUILDS = ("from_dotbracket", "from_fcfs", "from_listed", "from_string")
 DERIVATIONS = ("without_pseudoknots", "without_isolated")
 PUBLIC_SLOTS = ["sequence", "elements", "dot_bracket", "fcfs", "all_dot_brackets"]
 ALL_SLOTS = ["sequence", "_BpSeq__stems_entries", "elements", "_BpSeq__regions", "dot_bracket", "fcfs",
@@ -62,7 +64,7 @@ def gen_run(seed, tier, i):
     enabled = [o for o in OPS if s_cfg.random() < 0.6]
     if st["family"].startswith("large"):
         # the all-dot-brackets list is a product over the knotted groups: astronomically long here
-        enabled = [o for o in enabled if o != "all_dot_brackets"]
+        enabled = [o for o in enabled if o not in ("all_dot_brackets", "from_listed")]
     for d in DERIVATIONS:
         if s_cfg.random() < 0.6 and d not in enabled:
             enabled.append(d)
@@ -72,6 +74,19 @@ def gen_run(seed, tier, i):
     ops = [{"op": s_ops.choice(enabled), "target": s_ops.randrange(64)} for _ in range(nops)]
     run = {"property": NAME, "family": st["family"], "triples": st["triples"], "solver": solver,
            "tie": s_cfg.randrange(1 << 10), "ops": ops}
+    s_fault = rng.stream(NAME, tier, seed, i, "faults")
+    if solver == "sim" and s_fault.random() < 0.15:
+        # the fault-injecting configuration (kept apart from the fault-free one, whose oracle is strict): solves
+        # that happen inside a call may fail.  What is judged then is purity proper - entries, text and pairs of
+        # every object unchanged also after a failed or half-finished solve, every answer repeated identically
+        # when asked again, every notation a lossless one - while *which* lossless notation a call gets (the
+        # optimal one or, after a failure, first-come-first-served) is left to C13.
+        run["faulty"] = True
+        for o in ops:
+            if s_fault.random() < 0.5:
+                kind = s_fault.choice(FAULT_KINDS)
+                o["fault"] = {"kind": kind, "assign": s_fault.choice(API_ASSIGN), "partial": s_fault.randrange(1 << 16),
+                              "exc": s_fault.choice(["message", "noargs", "subclass"]), "tie": run["tie"]}
     if s_cfg.random() < 0.35:
         # a second, independent original with the same sequence but other pairs: anything memoised under a
         # key that is too coarse (sequence, length, ...) makes one answer for the other
@@ -79,6 +94,17 @@ def gen_run(seed, tier, i):
         if sib is not None:
             run["sibling"] = sib
     return run
+
+
+FAULT_KINDS = ["raise_before", "raise_after_partial", "raise_after_optimal", "status_infeasible", "status_notsolved",
+               "status_undefined", "status_unbounded"]
+API_ASSIGN = ["none", "partial", "full"]
+# answers that depend on what the solver did during (or before) the call
+SOLVER_DEPENDENT = {"dot_bracket", "elements", "convert_sim", "without_pseudoknots", "db_without_pseudoknots"}
+# solver-independent queries: asked again they must answer the same whatever failed in between (a solver-dependent
+# one may legitimately differ when the solver behaved differently the second time - an implementation that does
+# not memoise a fallback answer is not impure)
+ASKED_AGAIN = {"str", "pairs", "sequence", "fcfs", "all_dot_brackets", "paired"}
 
 
 def sibling(s, triples):
@@ -167,6 +193,13 @@ def apply_op(env, op, obj, birth):
             raw = obj.fcfs.without_pseudoknots()
         elif op == "from_dotbracket":
             raw = c.BpSeq.from_dotbracket(obj.dot_bracket)
+        elif op == "from_fcfs":
+            raw = c.BpSeq.from_dotbracket(obj.fcfs)
+        elif op == "from_listed":
+            listed = obj.all_dot_brackets
+            raw = c.BpSeq.from_dotbracket(listed[(len(birth) * 7 + 3) % len(listed)])
+        elif op == "from_string":
+            raw = c.BpSeq.from_string(str(obj))
         else:
             raise HarnessError("unknown op " + op)
     except (HarnessError, zero_one.NodeCap, zero_one.Unsupported, KeyboardInterrupt):
@@ -221,7 +254,7 @@ def spec_problem(op, answer, birth, solver):
             got.append((int(f[1]), int(f[6]), int(f[2]) - int(f[1]) + 1))
         if sorted(got) != sorted(want):
             return ("element-stems-are-the-stems-of-the-structure", sorted(want), sorted(got))
-    elif op == "from_dotbracket":
+    elif op in REBUILDS:
         if answer != ["BpSeq", [list(t) for t in birth]]:
             return ("from_dotbracket-of-own-notation-is-the-structure", birth, answer)
     elif op in ("db_without_pseudoknots", "fcfs_without_pseudoknots"):
@@ -271,13 +304,46 @@ def execute_run(run, tmpdir):
             origin.append("sibling")
         touched = set()
         ref_cache = {}
+        faulty = bool(run.get("faulty"))
+        healthy = {"kind": "ok", "tie": run["tie"]}
+        first_answers = {}
+
+        def set_fault(f):
+            env.faults = [dict(f)]
+            env.fault_cursor = 0
 
         def reference(birth_idx, op):
+            """The answer of a brand-new object built from the birth triples, under a healthy solver."""
             key = (birth_idx, op)
             if key not in ref_cache:
+                saved = (env.faults, env.fault_cursor)
+                set_fault(healthy)
                 fresh = solve_engine.make_bpseq(births[birth_idx])
                 ref_cache[key] = apply_op(env, op, fresh, births[birth_idx])[0]
+                env.faults, env.fault_cursor = saved
             return ref_cache[key]
+
+        def relaxed_problem(op, answer, obj, birth):
+            """Fault-injecting configuration only: what a solver-dependent answer must still satisfy."""
+            n, pairs = oracles.pairs_of_triples(birth)
+            if op in ("dot_bracket", "convert_sim"):
+                allowed = [reference(t, "dot_bracket"), ["DotBracket", oracles.sequence_of_triples(birth), oracles.fcfs_ref(n, pairs)]]
+                if answer not in allowed:
+                    return ("notation-is-the-optimal-or-the-fcfs-one", allowed, answer)
+            if op == "elements" and "dot_bracket" in obj.__dict__:
+                own = obj.__dict__["dot_bracket"].structure
+                seq = oracles.sequence_of_triples(birth)
+                for group in answer:
+                    for text in group:
+                        f = text.split()
+                        # every strand is "<first> <last> <sequence> <structure>" somewhere in the element text
+                        for q in range(len(f) - 3):
+                            if f[q].isdigit() and f[q + 1].isdigit() and not f[q + 2].isdigit():
+                                lo, hi = int(f[q]), int(f[q + 1])
+                                if hi - lo + 1 == len(f[q + 2]) == len(f[q + 3]) and (
+                                        f[q + 2] != seq[lo - 1:hi] or f[q + 3] != own[lo - 1:hi]):
+                                    return ("elements-agree-with-the-object's-own-notation", [lo, hi, seq[lo - 1:hi], own[lo - 1:hi]], text)
+            return None
 
         for k, step in enumerate(run["ops"]):
             op = step["op"]
@@ -287,11 +353,27 @@ def execute_run(run, tmpdir):
             ids = {id(e) for e in obj.entries}
             aliased_touched = any(ids & {id(e) for e in pool[u].entries} for u in touched)
             events.log("op.invoke", [op, t, mask])
+            if faulty:
+                set_fault(step.get("fault") or healthy)
             answer, raw = apply_op(env, op, obj, births[t])
-            expected = reference(t, op)
+            if faulty:
+                set_fault(healthy)
             events.log("op.return", rng.digest(answer)[:16])
-            if answer != expected:
-                violations.append(_v(k, "answer-equals-fresh-copy", op, expected, answer))
+            raised = isinstance(answer, list) and answer[:1] == ["raised"]
+            if not faulty or op not in SOLVER_DEPENDENT:
+                expected = reference(t, op)
+                if answer != expected and not (faulty and raised):
+                    violations.append(_v(k, "answer-equals-fresh-copy", op, expected, answer))
+            elif not raised:
+                rp = relaxed_problem(op, answer, obj, births[t])
+                if rp:
+                    violations.append(_v(k, rp[0], op, rp[1], rp[2]))
+            if faulty and not raised and op in ASKED_AGAIN:
+                # purity under faults: whatever an object answered once, it answers again
+                key = (id(obj), op)
+                if key in first_answers and first_answers[key] != answer:
+                    violations.append(_v(k, "same-answer-when-asked-again", op, first_answers[key], answer))
+                first_answers.setdefault(key, answer)
             # independent clauses (they do not go through a second copy of the code under test, so process-
             # or class-level state shared by the receiver and the fresh copy cannot hide behind them)
             spec = spec_problem(op, answer, births[t], run["solver"])
@@ -309,6 +391,12 @@ def execute_run(run, tmpdir):
                     want = oracles.pairs_in_long_stems(bpairs)
                     if cpairs != want:
                         violations.append(_v(k, "without_isolated-keeps-exactly-long-stems", op, sorted(want), sorted(cpairs)))
+                elif faulty:
+                    own = obj.__dict__.get("dot_bracket")
+                    if own is not None and oracles.decode(own.structure) is not None:
+                        want = oracles.pairs_on_round(own.structure)
+                        if cpairs != want:
+                            violations.append(_v(k, "without_pseudoknots-keeps-exactly-round-pairs", op, sorted(want), sorted(cpairs)))
                 else:
                     ref_db = reference(t, "dot_bracket")
                     if ref_db[0] == "DotBracket":
@@ -319,7 +407,7 @@ def execute_run(run, tmpdir):
                     pool.append(child)
                     births.append(copy.deepcopy(ctr))
                     origin.append("child")
-            if op == "from_dotbracket" and raw is not None and len(pool) < 6:
+            if op in REBUILDS and raw is not None and len(pool) < 6:
                 # an object rebuilt from the receiver's own (memoised) notation is a derived object too: it
                 # joins the pool, and whatever it shares with that notation is exercised by later calls
                 pool.append(raw)
@@ -355,6 +443,10 @@ def execute_run(run, tmpdir):
                         if slot == "all_dot_brackets":
                             cached = sorted(cached)
                         ref = reference(u, slot)
+                        if faulty and slot in ("dot_bracket", "elements"):
+                            # may legitimately be the first-come-first-served answer after a failed solve; what it
+                            # must be is judged when it is asked for (relaxed_problem)
+                            continue
                         if cached != ref:
                             violations.append(_v(k, "cached-answer-equals-fresh-copy", op, ref, cached, who + ":" + slot))
             if violations:
@@ -373,7 +465,7 @@ def run_index(seed, tier, i, tmpdir):
         res = {"violations": [], "digest": "discard:" + type(e).__name__, "counters": {"discard." + type(e).__name__: 1},
                "coverage": [], "steps": 0, "pool": 0}
     res["index"] = i
-    res["solver"] = run["solver"]
+    res["solver"] = run["solver"] + ("+faults" if run.get("faulty") else "")
     if res["violations"] or i % 997 == 0:
         res["run"] = run
     return res
@@ -416,6 +508,12 @@ def shrink_candidates(run, v):
         yield dict(run, tie=0)
     if run.get("sibling"):
         yield {k: v for k, v in run.items() if k != "sibling"}
+    if run.get("faulty"):
+        for k, o in enumerate(ops):
+            if o.get("fault"):
+                yield dict(run, ops=ops[:k] + [{kk: vv for kk, vv in o.items() if kk != "fault"}] + ops[k + 1:])
+                if o["fault"]["kind"] != "raise_before":
+                    yield dict(run, ops=ops[:k] + [dict(o, fault=dict(o["fault"], kind="raise_before"))] + ops[k + 1:])
     for t in shrink.structure_candidates(run["triples"]):
         if t:
             yield dict(run, triples=t)
@@ -454,7 +552,13 @@ def coverage_doc(results, tier):
         "mean_pool_size": round(pools / max(1, len(results)), 2),
         "solver_behaviour_per_history": solvers,
         "fault_kinds_fired": dict(sorted(counters.items())),
-        "faults": "none injected here on purpose: a failed solve legitimately changes the answer to FCFS; that interplay is C13's",
+        "faults": "two configurations, kept apart: fault-free histories (strict oracle: every answer equals a fresh copy's) and, "
+                  "in about one history in eight with the stub solver, solver faults inside calls (raise before / after a "
+                  "partial result / after the status was recorded, each non-optimal status with stale values). There the "
+                  "oracle is relaxed narrowly: a solver-dependent answer may be the optimal or the first-come-first-served "
+                  "notation (which of the two is C13's business), everything else stays strict - entries, text and pairs of "
+                  "every object unchanged also after a failed call, the same answer when asked again, lossless notations, "
+                  "the removals' specification against the object's own notation",
         "simulated_time": "none: no anchored code path reads a clock",
         "real_vs_stub": {"real": ["rnapolis BpSeq/DotBracket (working tree)", "pulp model building", "bundled CBC in ~5% of histories"],
                          "stub": ["solver (deterministic exact stub with a per-history tie-break) in most histories"]},
